@@ -19,6 +19,7 @@ from fractions import Fraction
 
 import numpy as np
 
+from . import c20_spatial as S
 from . import c20_types as T
 from . import common
 from .common import Ctx, frac, rs
@@ -786,6 +787,74 @@ def derivative_model_part(ctx: Ctx, drv):
                         break
 
 
+def derivative_kinds_part(ctx: Ctx, drv):
+    """interpolate_with_derivative for the SciPy-backed kinds vs the model `interpDeriv f` (f = nakSpline / barycentric /
+    linear); oracle for the spline kinds: on a cubic c0 + c1 t + c2 t^2 + c3 t^3 the derivative returned is the derivative
+    of the cubic plus c3 dx^2 (theorem spline_derivative_of_cubic, stated here on the real code)"""
+    from midgard.math import interpolation as ip
+
+    MODEL = {"cubic": "spline", "interpolated_univariate_spline": "spline", "barycentric_interpolator": "barycentric", "linear": "linear"}
+    rng = ctx.rng
+    for ci in range(ctx.budget(15, 300)):
+        for kind, mk in MODEL.items():
+            with guard(ctx, "derivative"):
+                n = rng.randint(5, 14) if kind != "barycentric_interpolator" else rng.randint(4, 8)
+                x, flavour = gen_abscissae(rng, n)
+                if kind == "barycentric_interpolator":
+                    x, flavour = rng.uniform(-50, 50) + 10 ** rng.uniform(-1, 1) * np.arange(n), "uniform"
+                span, gap = float(x[-1] - x[0]), float(np.min(np.diff(x)))
+                cub = rng.random() < 0.5
+                co = [rng.uniform(-3, 3) for _ in range(4)]
+                t = (x - x[0]) / span
+                y = sum(cj * t ** j for j, cj in enumerate(co)) if cub else gen_y(rng, x, (), 3)[0]
+                dx = gap * rng.choice([0.5, 0.25, 1.0]) * rng.choice([1, 1, -1])
+                k = rng.randint(1, 4)
+                xn = np.array([rng.uniform(x[0] + abs(dx), x[-1] - abs(dx)) for _ in range(k)])
+                mode = "ok"
+                if rng.random() < 0.15 and kind not in ("interpolated_univariate_spline", "barycentric_interpolator"):
+                    xn = xn.copy(); xn[rng.randrange(k)] = rng.choice([x[0] + abs(dx) * 0.5, x[-1] - abs(dx) * 0.5]); mode = "shifted-outside"
+                case = {"part": "derivative", "kind": kind, "n": n, "tail": [], "dx": fl(dx), "mode": mode, "x": [fl(v) for v in x],
+                        "xn": [fl(v) for v in xn], "y": [fl(v) for v in y]}
+                if cub:
+                    case["coeffs"] = co
+                ctx.case(case)
+                ctx.count(f"derivative-kinds:{kind}:{mode}")
+                try:
+                    with warnings.catch_warnings():
+                        warnings.simplefilter("ignore")
+                        yn, yd = ip.interpolate_with_derivative(x, y, xn, kind=kind, dx=dx)
+                    impl = ("ok", np.asarray(yn, dtype=float).ravel(), np.asarray(yd, dtype=float).ravel())
+                except ValueError as e:
+                    impl = ("err", str(e)[:60])
+                m = drv.ask1(f"c20 deriv {mk} 1 {rl(frac(v) for v in x)} {rrows([frac(v)] for v in y)} {rl(frac(v) for v in xn)} {rs(frac(dx))}")
+                if m.startswith("err ") or impl[0] == "err":
+                    if m.startswith("err ") != (impl[0] == "err"):
+                        ctx.disagree(f"interpolate_with_derivative({kind}) error branch", case, m[:40], list(map(str, impl[:2])))
+                    continue
+                mv, md = (prows(t_) for t_ in m[3:].split(" "))
+                W = np.asarray(call_interp(kind, x, np.eye(n), np.concatenate([xn, xn + dx, xn - dx])), dtype=float)
+                lam0, lam1 = np.abs(W[:k]).sum(axis=1), np.abs(W[k:2 * k]).sum(axis=1) + np.abs(W[2 * k:]).sum(axis=1)
+                if kind == "barycentric_interpolator" and (np.any(lam0 > 1e3) or np.any(lam1 > 2e3)):
+                    continue
+                ymax = float(np.max(np.abs(y))) + 1e-300
+                amp = 1.0 + float(np.max(np.abs(x - x.mean())) / gap)
+                ratio = float(np.max(np.diff(x)) / gap)
+                unit = 1e-13 * n * amp * (ratio ** 2 if mk == "spline" else 1.0) * ymax
+                xulp = float(np.spacing(np.max(np.abs(x))))
+                for a in range(k):
+                    if abs(frac(impl[1][a]) - mv[a][0]) > frac(unit * lam0[a] + 1e-300):
+                        ctx.disagree(f"interpolate_with_derivative({kind}) value", {**case, "at": a}, float(mv[a][0]), float(impl[1][a]))
+                    if abs(frac(impl[2][a]) - md[a][0]) > frac(unit * lam1[a] / abs(2 * dx) + 2 * xulp * abs(float(md[a][0])) / abs(dx) + 1e-300):
+                        ctx.disagree(f"interpolate_with_derivative({kind}) derivative", {**case, "at": a}, float(md[a][0]), float(impl[2][a]))
+                if cub and mk == "spline":
+                    tn = (xn - x[0]) / span
+                    want = (co[1] + 2 * co[2] * tn + 3 * co[3] * tn * tn + co[3] * (dx / span) ** 2) / span
+                    tol = 10 * unit / ymax * sum(abs(c_) for c_ in co) * lam1 / abs(2 * dx) + 2 * xulp * np.abs(want) / abs(dx)
+                    if not np.all(np.abs(impl[2] - want) <= tol):
+                        V(ctx, f"interp:derivative:cubic:{kind}", f"the derivative of data on a cubic (dx = {dx!r}) is off by "
+                          f"{float(np.max(np.abs(impl[2] - want))):.3e} from p'(x) + c3 dx^2", case)
+
+
 def derivative_part(ctx: Ctx):
     """interpolate_with_derivative: same values as interpolate, derivative = central difference of the interpolant
     over x_new +- dx (the documented definition), hence exact slope for data on a line; every interpolator"""
@@ -1524,7 +1593,7 @@ def run(ctx: Ctx):
     ctx.proof = common.prove("C20")
     if ctx.thorough and ctx.proof.ok:
         mods = ["Midgard.Props.C20", "Midgard.Proofs.C20Lagrange", "Midgard.Proofs.C20Dop", "Midgard.Proofs.C20Algebra",
-                "Midgard.Proofs.C20Deriv", "Midgard.Proofs.C20Bary", "Midgard.Proofs.C20Nputil", "Midgard.Proofs.C20Spherical", "Midgard.Proofs.C20Spline", "Midgard.Proofs.C20Stats",
+                "Midgard.Proofs.C20Deriv", "Midgard.Proofs.C20Bary", "Midgard.Proofs.C20Nputil", "Midgard.Proofs.C20Spherical", "Midgard.Proofs.C20Spline", "Midgard.Proofs.C20Stats", "Midgard.Proofs.C20Grid", "Midgard.Proofs.C20DerivAll",
                 "Midgard.Model.Numeric", "Midgard.Spec.UnitsSI", "Midgard.Generated.C20Tables"]
         import subprocess
         with common.lake_lock():
@@ -1563,9 +1632,12 @@ def run(ctx: Ctx):
     scipy_part(ctx, drv)
     derivative_part(ctx)
     derivative_model_part(ctx, drv)
+    derivative_kinds_part(ctx, drv)
     import sys
     T.types_part(ctx, sys.modules[__name__], info)
     nputil_part(ctx, drv)
+    S.spatial_part(ctx, sys.modules[__name__], drv)
+    S.sun_part(ctx, sys.modules[__name__], drv, info)
     dops_part(ctx, drv, info)
     plate_part(ctx, drv, info)
     pole_forms_part(ctx, drv, info)
@@ -1613,6 +1685,9 @@ def replay(payload):
         if part in T.CHECKS:
             import sys
             bad = T.replay_case(ctx, sys.modules[__name__], c)
+        elif part in ("spatial", "sun"):
+            import sys
+            bad = S.replay_case(ctx, sys.modules[__name__], c)
         elif part == "dms":
             x = _hx(c["deg"])
             d, m, sec = (float(v) for v in Unit.deg_to_dms(x))
